@@ -192,7 +192,12 @@ type exec04 struct {
 }
 
 func newExec04(owner map[int]string, start int) *exec04 {
-	e := &exec04{c: cache.NewCache(&cache.Args{Size: 1 << 16}, cache.Opts{}), owner: owner, ctr: start}
+	return newExec04On(cache.NewCache(&cache.Args{Size: 1 << 16}, cache.Opts{}), owner, start)
+}
+
+// newExec04On drives an existing cache instance (c04reload.go: instances with a dump_file, instances that loaded a dump).
+func newExec04On(c *cache.Cache, owner map[int]string, start int) *exec04 {
+	e := &exec04{c: c, owner: owner, ctr: start}
 	node := &sequence.ChainNode{E: sequence.ExecutableFunc(func(ctx context.Context, qCtx *query_context.Context) error {
 		if qCtx.R() != nil {
 			return nil
@@ -370,7 +375,9 @@ func runC04(r *Run) {
 			r.meta.Dist["reload-hit"] = hits
 		}
 	}
+	// cache lives: questions whose key bytes are adversarial for layout-guessing code on the dump / load path (c04reload.go)
+	runReload04(r)
 	// chains with several cache plugins and question-rewriting plugins between them (c04chain.go)
 	runChains04(r)
-	r.Finish("boundary grid of types x classes x 8 flag sets, then seeded queries (mostly valid, 20% bypass stream); each cacheable query with ~20 one-attribute variants; non-trivial = cacheable query / variant pair; distinct by full query text; then seeded sequences with 2-3 cache plugins (distinct or one instance twice; inline, jump or goto) and prefer_ipv4/prefer_ipv6, redirect or a question-rewriting plugin (type, name, class, AD, CD, DO; on a Copy() or in place) between them, 4-10 queries each entering at the head or at a later cache plugin, a probe behind every cache plugin; the observed store/hit events are replayed on the model's trace acceptor (one `chain` line per sequence)")
+	r.Finish("boundary grid of types x classes x 8 flag sets, then seeded queries (mostly valid, 20% bypass stream); each cacheable query with ~20 one-attribute variants; non-trivial = cacheable query / variant pair; distinct by full query text; then seeded sequences with 2-3 cache plugins (distinct or one instance twice; inline, jump or goto) and prefer_ipv4/prefer_ipv6, redirect or a question-rewriting plugin (type, name, class, AD, CD, DO; on a Copy() or in place) between them, 4-10 queries each entering at the head or at a later cache plugin, a probe behind every cache plugin; the observed store/hit events are replayed on the model's trace acceptor (one `chain` line per sequence); before that, dump / reload batches (verif shims, dump_file + Close + NewCache, GET /dump + POST /load_dump) over pairs of wire-stable questions whose keys are 1-3 inserted header bytes apart (every offset x filling x which of the two was stored), both asked after the reload: an answer served from the cache must have been produced for the same question; events replayed on the same acceptor")
 }
